@@ -1,10 +1,11 @@
-//@ unit u_iter : the u32 digit iterator over 64-bit digits as an exact-size double-ended iterator (src/biguint/iter.rs)
+//@ unit u_iter : the u32 and u64 digit iterators over 64-bit digits as exact-size double-ended iterators; to_u32_digits / to_u64_digits (src/biguint/iter.rs, src/biguint.rs)
 #![feature(allocator_api)]
 use vstd::prelude::*;
 use vstd::std_specs::iter::IteratorSpec;
 verus! {
 //@ include prelude/core.rs
 //@ include prelude/std_specs.rs
+//@ include prelude/sliceiter.rs
 pub mod u {
 use super::*;
 
@@ -142,6 +143,18 @@ impl<'a> U32Digits<'a> {
     }
 //@ end
 
+//@ extract src/biguint/iter.rs :: impl Iterator for U32Digits<'_> :: fn size_hint rules=R0 props=C09
+    fn size_hint(&self) -> /*+*/(r: /*-*/(usize, Option<usize>)/*+*/)/*-*/
+//+{
+        requires self.inv()
+        ensures r.0 == self.view().len(), r.1 == Some(self.view().len() as usize)
+//+}
+    {
+        let len = self.len();
+        (len, Some(len))
+    }
+//@ end
+
 //@ extract src/biguint/iter.rs :: impl Iterator for U32Digits<'_> :: fn count rules=R0,R5 props=C09
     fn count(self) -> /*+*/(r: /*-*/usize/*+*/)/*-*/
 //+{
@@ -189,6 +202,108 @@ pub proof fn lemma_full32_prefix(d: Seq<u64>)
     assert((2 * n - 1) / 2 == n - 1 && (2 * n - 1) % 2 == 1);
 }
 
+//@ extract src/biguint/iter.rs :: struct U64Digits
+pub struct U64Digits<'a> {
+    it: core::slice::Iter<'a, u64>,
+}
+//@ end
+
+impl<'a> U64Digits<'a> {
+    /// the digits that remain to be yielded
+    #[verifier::prophetic]
+    pub closed spec fn view(&self) -> Seq<u64> { self.it.remaining().map_values(|r: &u64| *r) }
+}
+
+impl<'a> U64Digits<'a> {
+//@ extract src/biguint/iter.rs :: impl<'a> U64Digits<'a> :: fn new rules=R0 props=C09 label=u64digits_new
+    pub(super) fn new(data: &'a [u64]) -> /*+*/(r: /*-*/Self/*+*/)/*-*/
+//+{
+        ensures r.view() =~= data@
+//+}
+    {
+        Self { it: data.iter() }
+    }
+//@ end
+
+    // contract-only re-homing of `impl Iterator / DoubleEndedIterator / ExactSizeIterator for U64Digits<'_>` (64-bit digit variant)
+//@ extract src/biguint/iter.rs :: impl Iterator for U64Digits<'_> :: fn next rules=R0 props=C09 label=u64digits_next
+    fn next(&mut self) -> /*+*/(r: /*-*/Option<u64>/*+*/)/*-*/
+//+{
+        ensures
+            old(self).view().len() == 0 ==> r is None && final(self).view().len() == 0,
+            old(self).view().len() > 0 ==> r == Some(old(self).view()[0]) && final(self).view() =~= old(self).view().drop_first(),
+//+}
+    {
+        self.it.next().cloned()
+    }
+//@ end
+
+//@ extract src/biguint/iter.rs :: impl Iterator for U64Digits<'_> :: fn size_hint rules=R0 props=C09 label=u64digits_size_hint
+    fn size_hint(&self) -> /*+*/(r: /*-*/(usize, Option<usize>)/*+*/)/*-*/
+//+{
+        ensures r.0 == self.view().len(), r.1 == Some(self.view().len() as usize)
+//+}
+    {
+        self.it.size_hint()
+    }
+//@ end
+
+//@ extract src/biguint/iter.rs :: impl Iterator for U64Digits<'_> :: fn nth rules=R0 props=C09 label=u64digits_nth
+    fn nth(&mut self, n: usize) -> /*+*/(r: /*-*/Option<u64>/*+*/)/*-*/
+//+{
+        ensures
+            n < old(self).view().len() ==> r == Some(old(self).view()[n as int]) && final(self).view() =~= old(self).view().subrange(n as int + 1, old(self).view().len() as int),
+            n >= old(self).view().len() ==> r is None && final(self).view().len() == 0,
+//+}
+    {
+        self.it.nth(n).cloned()
+    }
+//@ end
+
+//@ extract src/biguint/iter.rs :: impl Iterator for U64Digits<'_> :: fn last rules=R0 props=C09 label=u64digits_last
+    fn last(self) -> /*+*/(r: /*-*/Option<u64>/*+*/)/*-*/
+//+{
+        ensures self.view().len() == 0 ==> r is None,
+            self.view().len() > 0 ==> r == Some(self.view().last()),
+//+}
+    {
+        self.it.last().cloned()
+    }
+//@ end
+
+//@ extract src/biguint/iter.rs :: impl Iterator for U64Digits<'_> :: fn count rules=R0 props=C09 label=u64digits_count
+    fn count(self) -> /*+*/(r: /*-*/usize/*+*/)/*-*/
+//+{
+        ensures r == self.view().len()
+//+}
+    {
+        self.it.count()
+    }
+//@ end
+
+//@ extract src/biguint/iter.rs :: impl DoubleEndedIterator for U64Digits<'_> :: fn next_back rules=R0 tysub=Self::Item=>u64 props=C09 label=u64digits_next_back
+    fn next_back(&mut self) -> /*+*/(r: /*-*/Option<u64>/*+*/)/*-*/
+//+{
+        ensures
+            old(self).view().len() == 0 ==> r is None && final(self).view().len() == 0,
+            old(self).view().len() > 0 ==> r == Some(old(self).view().last()) && final(self).view() =~= old(self).view().drop_last(),
+//+}
+    {
+        self.it.next_back().cloned()
+    }
+//@ end
+
+//@ extract src/biguint/iter.rs :: impl ExactSizeIterator for U64Digits<'_> :: fn len props=C09 label=u64digits_len
+    fn len(&self) -> /*+*/(r: /*-*/usize/*+*/)/*-*/
+//+{
+        ensures r == self.view().len()
+//+}
+    {
+        self.it.len()
+    }
+//@ end
+}
+
 //@ extract src/biguint.rs :: struct BigUint
 pub struct BigUint {
     data: Vec<BigDigit>,
@@ -226,6 +341,32 @@ impl BigUint {
             invariant it__.inv(), v__@ + it__.view() =~= digits32(self.data@)
             ensures v__@ =~= digits32(self.data@)
             decreases it__.view().len()
+//+}
+        { match it__.next() { Some(x__) => v__.push(x__), None => break, } } v__ }
+    }
+//@ end
+
+//@ extract src/biguint.rs :: impl BigUint :: fn iter_u64_digits props=C09
+    pub fn iter_u64_digits(&self) -> /*+*/(r: /*-*/U64Digits<'_>/*+*/)/*-*/
+//+{
+        ensures r.view() == self.dg()
+//+}
+    {
+        U64Digits::new(self.data.as_slice())
+    }
+//@ end
+
+//@ extract src/biguint.rs :: impl BigUint :: fn to_u64_digits rules=R0,R45 props=C09
+    pub fn to_u64_digits(&self) -> /*+*/(r: /*-*/Vec<u64>/*+*/)/*-*/
+//+{
+        ensures r@ =~= self.dg()
+//+}
+    {
+        { let mut it__ = self.iter_u64_digits(); let mut v__ = Vec::new(); loop
+//+{
+            invariant v__@ + it__.view() =~= self.data@
+            ensures v__@ =~= self.data@
+            decreases self.data@.len() - v__@.len()
 //+}
         { match it__.next() { Some(x__) => v__.push(x__), None => break, } } v__ }
     }
